@@ -352,3 +352,229 @@ func judgeFilter(e *harness.Env, desc string, base []*rag.Chunk, p1 pred, i2 int
 	}
 	e.Pass(desc, !(p1.name == "custom:true" && i2 < 0), oc)
 }
+
+// ---- sibling space: filter results are values -----------------------------------------------------------------
+// "Filtering a collection returns exactly the chunks satisfying the predicate" has to stay true of a result for as long
+// as the caller holds it: several filters / searches are applied to the SAME source collection (r1 := cc.P1();
+// r2 := cc.P2(); [r3 := cc.P3()]) and only then is every result judged against its reference comprehension; r1 is
+// judged again after r2 has been exported, after r1 itself has been filtered further, and after a Search on the
+// source; finally the exports of r1 are judged against the reference selection.
+
+// a family-covering subset of the predicates for the triple product
+var triplePreds = []string{"section:Intro", "section:", "page:1", "page:4", "pages:2..5", "pages:1..10", "etype:paragraph", "etype:table",
+	"tables", "lists", "images", "mintok:10", "maxtok:9", "mintok:-2147483648", "search:hello", "search:", "search:zzz",
+	"custom:true", "custom:false", "custom:idA"}
+
+func refSelect(base []*rag.Chunk, ps ...pred) []*rag.Chunk {
+	var out []*rag.Chunk
+next:
+	for _, c := range base {
+		for _, p := range ps {
+			if !p.ref(c) {
+				continue next
+			}
+		}
+		out = append(out, c)
+	}
+	return out
+}
+
+func siblingSpace(e *harness.Env) {
+	ps := predicates()
+	byName := map[string]int{}
+	tok := make([]string, len(ps))
+	for i, p := range ps {
+		byName[p.name] = i
+		tok[i] = descTok(p.name)
+	}
+	var tri []int
+	for _, n := range triplePreds {
+		i, ok := byName[n]
+		if !ok {
+			panic("c14: no predicate " + n)
+		}
+		tri = append(tri, i)
+	}
+	maxPair, maxTriple := 2, -1
+	if e.Thorough() {
+		maxPair, maxTriple = 3, 3
+	}
+	e.Note("sibling_triple_predicates", fmt.Sprint(len(tri)))
+	K := len(fkinds)
+	for n := 0; n <= maxPair; n++ {
+		total := 1
+		for i := 0; i < n; i++ {
+			total *= K
+		}
+		for t := 0; t < total; t++ {
+			idxs := make([]int, n)
+			names := make([]byte, n)
+			x := t
+			for i := n - 1; i >= 0; i-- {
+				idxs[i] = x % K
+				x /= K
+				names[i] = fkinds[idxs[i]].name[0]
+			}
+			ctok := "space=sibling n=" + fmt.Sprint(n) + " chunks=" + string(names)
+			if n == 0 {
+				ctok += "-"
+			}
+			var base []*rag.Chunk
+			get := func() []*rag.Chunk {
+				if base == nil {
+					base = make([]*rag.Chunk, n)
+					for i, k := range idxs {
+						base[i] = fkinds[k].mk()
+					}
+				}
+				return base
+			}
+			for i1 := range ps {
+				for i2 := range ps {
+					desc := ctok + " f1=" + tok[i1] + " f2=" + tok[i2] + " f3=-"
+					if !e.Own(desc) {
+						continue
+					}
+					judgeSiblings(e, desc, get(), []pred{ps[i1], ps[i2]})
+				}
+			}
+			if n <= maxTriple {
+				for _, i1 := range tri {
+					for _, i2 := range tri {
+						for _, i3 := range tri {
+							desc := ctok + " f1=" + tok[i1] + " f2=" + tok[i2] + " f3=" + tok[i3]
+							if !e.Own(desc) {
+								continue
+							}
+							judgeSiblings(e, desc, get(), []pred{ps[i1], ps[i2], ps[i3]})
+						}
+					}
+				}
+			}
+		}
+	}
+}
+
+func judgeSiblings(e *harness.Env, desc string, base []*rag.Chunk, sp []pred) {
+	in := append([]*rag.Chunk(nil), base...)
+	cc := rag.NewChunkCollection(in)
+	want := make([][]*rag.Chunk, len(sp))
+	res := make([]*rag.ChunkCollection, len(sp))
+	fresh := make([]bool, len(sp)) // result was right when it was returned
+	jsonCfg := rag.DefaultExportConfig()
+	jsonCfg.Format = rag.ExportFormatJSON
+	jsonCfg.PrettyPrint = true
+
+	describe := func(cs []*rag.Chunk) string {
+		kinds := map[*rag.Chunk]string{}
+		for i, c := range base {
+			kinds[c] = fmt.Sprintf("%s%d", fkindName(c), i)
+		}
+		return idsOf(cs, kinds)
+	}
+	// check every result obtained so far; stage names the calls made since the results were obtained
+	check := func(stage string, upto int) bool {
+		if !samePtrs(cc.Chunks, base) || !samePtrs(in, base) {
+			e.Fail(desc, "filter-mutated-input", fmt.Sprintf("%s: source collection is now %s, was %s", stage, describe(cc.Chunks), describe(base)), nil)
+			return false
+		}
+		for k := 0; k <= upto; k++ {
+			if res[k] == nil {
+				e.Fail(desc, "filter-nil-collection", fmt.Sprintf("%s: result %d is nil", stage, k+1), nil)
+				return false
+			}
+			if !samePtrs(res[k].Chunks, want[k]) || res[k].Count() != len(want[k]) {
+				sig := "filter-wrong-selection"
+				if fresh[k] {
+					sig = "filter-result-changed-by-later-call"
+				}
+				e.Fail(desc, sig, fmt.Sprintf("%s: result %d (%s on %s) is %s, want %s", stage, k+1, sp[k].name, describe(base), describe(res[k].Chunks), describe(want[k])), nil)
+				return false
+			}
+		}
+		return true
+	}
+	var r11, srch *rag.ChunkCollection
+	var out2, outL, outJ string
+	var err2, errL, errJ error
+	stage := 0
+	ok := true
+	sig, det := harness.Guard(func() {
+		for k := range sp {
+			want[k] = refSelect(base, sp[k])
+			res[k] = sp[k].apply(cc)
+			if res[k] != nil && samePtrs(res[k].Chunks, want[k]) {
+				fresh[k] = true
+			}
+		}
+		last := len(sp) - 1
+		if ok = check("after all filters on the source", last); !ok {
+			return
+		}
+		stage = 1
+		out2, err2 = res[1].ToJSONL()
+		if ok = check("after exporting result 2", last); !ok {
+			return
+		}
+		stage = 2
+		r11 = sp[1].apply(res[0])
+		if ok = check("after filtering result 1 further", last); !ok {
+			return
+		}
+		stage = 3
+		srch = cc.Search("hello")
+		if ok = check("after Search on the source", last); !ok {
+			return
+		}
+		outL, errL = res[0].ToJSONL()
+		outJ, errJ = res[0].ToJSON()
+	})
+	_ = stage
+	if sig != "" {
+		e.Fail(desc, sig, det, nil)
+		return
+	}
+	if !ok {
+		return
+	}
+	want11 := refSelect(base, sp[0], sp[1])
+	if r11 == nil || !samePtrs(r11.Chunks, want11) {
+		e.Fail(desc, "filter-wrong-selection", fmt.Sprintf("%s applied to result 1 (%s): got %v, want %s", sp[1].name, sp[0].name, r11 != nil && true, describe(want11)), nil)
+		return
+	}
+	wantS := refSelect(base, pred{ref: func(c *rag.Chunk) bool { return containsFold(c.Text, "hello") }})
+	if srch == nil || !samePtrs(srch.Chunks, wantS) {
+		e.Fail(desc, "filter-wrong-selection", fmt.Sprintf("Search(hello) on the source after other filters: want %s", describe(wantS)), nil)
+		return
+	}
+	if err2 != nil || errL != nil || errJ != nil {
+		e.Fail(desc, "export-error", fmt.Sprintf("export of a filter result failed: %v %v %v", err2, errL, errJ), nil)
+		return
+	}
+	for _, x := range []struct {
+		cfg rag.ExportConfig
+		out string
+		cs  []*rag.Chunk
+		nm  string
+	}{{rag.JSONLExportConfig(), out2, want[1], "ToJSONL of result 2"}, {rag.JSONLExportConfig(), outL, want[0], "ToJSONL of result 1"}, {jsonCfg, outJ, want[0], "ToJSON of result 1"}} {
+		if v := judgeExport(x.cfg, x.out, x.cs); v.sig != "" {
+			v.detail = x.nm + " (" + describe(x.cs) + "): " + v.detail
+			fail(e, desc, verdict{sig: "filter-export:" + v.sig, detail: v.detail}, x.out)
+			return
+		}
+	}
+	oc := fmt.Sprintf("siblings:%d", len(sp))
+	switch {
+	case len(base) == 0:
+		oc += ":empty-input"
+	case len(want[0]) == 0 && len(want[1]) == 0:
+		oc += ":both-none"
+	case samePtrs(want[0], want[1]):
+		oc += ":same-selection"
+	case len(want[0]) >= len(want[1]):
+		oc += ":later-fits-earlier"
+	default:
+		oc += ":later-larger"
+	}
+	e.Pass(desc, true, oc)
+}
